@@ -2004,3 +2004,74 @@ func ruleOldTypesOnTheOldWire(c *core.Ctx) {
 		}
 	}
 }
+
+// TE1: a C++ enum has the underlying type its model declares. WriteEnum/ReadEnum serialise std::underlying_type_t<E>,
+// so the `base:` of a yardl enum reaches the wire only through the `enum class E : <base>` clause (and the first
+// template argument of yardl::BaseFlags for flags). With a declared base type the clause must be emitted, and with the
+// base type's own C++ spelling.
+func ruleCppEnumUnderlyingType(c *core.Ctx) {
+	const rule = "TE1"
+	c.Rule(rule, "cpp/types: for an enum with a base type the emitted `enum class` carries `: <TypeSyntax(BaseType)>`; flags pass TypeSyntax(BaseType) (int32 by default) to yardl::BaseFlags", 2)
+	rowsOf := pkgRows(c, "internal/cpp/types")
+	var rows []gee.Row
+	var d *ast.FuncDecl
+	for fd, rs := range rowsOf {
+		for _, r := range rs {
+			if r.Kind == "emit" && strings.Contains(r.Tmpl, "enum class %s") {
+				rows, d = rs, fd
+			}
+		}
+	}
+	if d == nil {
+		c.Undecided(rule, "anchor/emitter of `enum class`", 0, "no function of internal/cpp/types emits `enum class`")
+		return
+	}
+	// under "not flags, base type given" some emission must carry the base clause
+	okEnum, okFlags := false, false
+	var posEnum, posFlags = d.Pos(), d.Pos()
+	for _, r := range rows {
+		if r.Kind != "emit" {
+			continue
+		}
+		gs := mapStrings(r.Guards, stripDsl)
+		if strings.Contains(r.Tmpl, ": %s") && !strings.Contains(r.Tmpl, "BaseFlags") {
+			hasBaseArg := false
+			for _, a := range r.Args {
+				if strings.Contains(a, "EnumDefinition.BaseType") {
+					hasBaseArg = true
+				}
+			}
+			sat, _ := guardSat(gs, map[string]string{"type(TypeDefinition)": "EnumDefinition", "EnumDefinition.IsFlags": "false", "EnumDefinition.BaseType != nil": "true"})
+			if hasBaseArg && sat {
+				okEnum, posEnum = true, r.Pos
+			}
+		}
+		if strings.Contains(r.Tmpl, "yardl::BaseFlags<%s") {
+			posFlags = r.Pos
+			if len(r.Args) >= 2 && (strings.Contains(r.Args[1], "BaseType") || r.Args[1] == "valueTypeSyntax") {
+				okFlags = true
+			}
+		}
+	}
+	// the flags argument, when it is a local, must be assigned from the base type under `BaseType != nil`
+	if okFlags {
+		fromBase := false
+		for _, r := range rows {
+			if r.Kind == "assign:valueTypeSyntax" && len(r.Args) == 1 && strings.Contains(r.Args[0], "EnumDefinition.BaseType") {
+				if sat, _ := guardSat(mapStrings(r.Guards, stripDsl), map[string]string{"type(TypeDefinition)": "EnumDefinition", "EnumDefinition.IsFlags": "true", "EnumDefinition.BaseType != nil": "true"}); sat {
+					fromBase = true
+				}
+			}
+		}
+		for _, r := range rows {
+			if strings.Contains(r.Tmpl, "yardl::BaseFlags<%s") && len(r.Args) >= 2 && strings.Contains(r.Args[1], "EnumDefinition.BaseType") {
+				fromBase = true
+			}
+		}
+		okFlags = fromBase
+	}
+	c.Check(okEnum, rule, "enum class/underlying type clause", posEnum, "`: TypeSyntax(BaseType)` is emitted when the enum declares a base type",
+		"the emitted `enum class` has no `: <base>` clause for an enum that declares a base type: C++ falls back to int, WriteEnum writes a zig-zag varint where the schema (and every other language) says e.g. uint8/uint64 — values are encoded differently and large unsigned values do not fit")
+	c.Check(okFlags, rule, "flags/underlying type argument", posFlags, "yardl::BaseFlags receives TypeSyntax(BaseType) when the flags declare a base type",
+		"yardl::BaseFlags is not instantiated with the declared base type of the flags")
+}
